@@ -3,6 +3,7 @@ CONSTANTS
   Modes = {}
   IterateAllFields = FALSE
   SplitEverySpace = FALSE
+  CacheWidths = FALSE
   Emit = FALSE
   EmitOff = 0
 SPECIFICATION TSpec
